@@ -204,3 +204,78 @@ type (
 	Bool    = atomic.Bool
 	Value   = atomic.Value
 )
+
+// Pointer operations: the value is observed as nil / non-nil only (heap addresses differ between runs).
+func pbit(p unsafe.Pointer) uint64 {
+	if p == nil {
+		return 0
+	}
+	return 1
+}
+
+// LoadPointer .
+func LoadPointer(addr *unsafe.Pointer) unsafe.Pointer {
+	sched.Point("atomic.LoadPointer", nil)
+	v := atomic.LoadPointer(addr)
+	obs(unsafe.Pointer(addr), pbit(v), pbit(v))
+	return v
+}
+
+// StorePointer .
+func StorePointer(addr *unsafe.Pointer, val unsafe.Pointer) {
+	sched.Point("atomic.StorePointer", nil)
+	atomic.StorePointer(addr, val)
+	obs(unsafe.Pointer(addr), 0, pbit(val))
+}
+
+// SwapPointer .
+func SwapPointer(addr *unsafe.Pointer, new unsafe.Pointer) unsafe.Pointer {
+	sched.Point("atomic.SwapPointer", nil)
+	v := atomic.SwapPointer(addr, new)
+	obs(unsafe.Pointer(addr), pbit(v), pbit(new))
+	return v
+}
+
+// CompareAndSwapPointer .
+func CompareAndSwapPointer(addr *unsafe.Pointer, old, new unsafe.Pointer) bool {
+	sched.Point("atomic.CompareAndSwapPointer", nil)
+	ok := atomic.CompareAndSwapPointer(addr, old, new)
+	r := uint64(0)
+	if ok {
+		r = 1
+	}
+	obs(unsafe.Pointer(addr), r, pbit(atomic.LoadPointer(addr)))
+	return ok
+}
+
+// SwapInt64 .
+func SwapInt64(addr *int64, new int64) int64 {
+	sched.Point("atomic.SwapInt64", nil)
+	v := atomic.SwapInt64(addr, new)
+	obs(unsafe.Pointer(addr), uint64(v), uint64(new))
+	return v
+}
+
+// SwapUint32 .
+func SwapUint32(addr *uint32, new uint32) uint32 {
+	sched.Point("atomic.SwapUint32", nil)
+	v := atomic.SwapUint32(addr, new)
+	obs(unsafe.Pointer(addr), uint64(v), uint64(new))
+	return v
+}
+
+// SwapUint64 .
+func SwapUint64(addr *uint64, new uint64) uint64 {
+	sched.Point("atomic.SwapUint64", nil)
+	v := atomic.SwapUint64(addr, new)
+	obs(unsafe.Pointer(addr), v, new)
+	return v
+}
+
+// SwapUintptr .
+func SwapUintptr(addr *uintptr, new uintptr) uintptr {
+	sched.Point("atomic.SwapUintptr", nil)
+	v := atomic.SwapUintptr(addr, new)
+	obs(unsafe.Pointer(addr), uint64(v), uint64(new))
+	return v
+}
